@@ -63,13 +63,15 @@ def make_driver(dc, seed=5):
     kw = {"fast": True} if dc["mode"] == "fast" else ({"soft": True} if dc["mode"] == "soft" else {})
 
     def driver():
+        from .. import sched
+        sched.trace_containers(d)  # plain dict / list / set attributes of the shared dissimilarity become visible
         np.random.seed(seed)
         if dc.get("big"):
             from ..universe import fam_staircase
             c = build_continuum(fam_staircase(*dc["big"]))
         else:
             c = build_continuum(REF3 if dc.get("gt") else REF)
-        s = None if dc["sampler"] == "stat" else pa.ShuffleContinuumSampler()
+        s = None if dc["sampler"] == "stat" else sched.trace_containers(pa.ShuffleContinuumSampler())
         gt = set(dc["gt"]) if dc.get("gt") else None
         res = c.compute_gamma(d, n_samples=dc["n"], precision_level=dc["prec"], sampler=s,
                               ground_truth_annotators=gt, **kw)
